@@ -209,4 +209,144 @@ decreasing_by
   all_goals omega
 end
 
+/-! ## header entry points: the chunk test and `try_deserialize` on whole slices -/
+
+open SafeNet.Gen.Wire in
+theorem is_chunk_spec (bs : List Nat) :
+    (isChunk bs = none ↔ fromRecord bs = none) ∧
+    (isChunk bs = some true ↔ fromRecord bs = some .Chunk) ∧
+    (∀ b, isChunk bs = some b → ∃ k, fromRecord bs = some k ∧ b = (k == .Chunk)) := by
+  unfold isChunk
+  simp only [isChunkViaFromRecord, ↓reduceIte]
+  cases h : fromRecord bs with
+  | none => simp
+  | some k => cases k <;> simp
+
+open SafeNet.Gen.Wire in
+theorem elem_two (b1 b2 : Nat) :
+    (match decodeHead [b1, b2] with | some (.uint n, _) => tagKind n | _ => none) =
+      (if b1 < 0x80 then tagKind b1 else if b1 = 0xcc then tagKind b2
+       else if b1 = 0xd0 then (if b2 < 0x80 then tagKind b2 else none) else none) := by
+  simp only [decodeHead]
+  by_cases c0 : b1 < 128
+  · simp [c0]
+  by_cases c1 : b1 = 204
+  · subst c1; simp [readBE, fromBE]
+  by_cases c2 : b1 = 208
+  · subst c2
+    by_cases c3 : b2 < 128
+    · simp [readBE, fromBE, signedHead, c3]
+    · simp [readBE, fromBE, signedHead, c3]
+  simp only [c0, c1, c2, ↓reduceIte]
+  split
+  · rename_i h
+    exfalso
+    by_cases d0 : b1 < 144
+    · rw [if_pos d0] at h; simp [readBE] at h
+    rw [if_neg d0] at h
+    by_cases d1 : b1 < 160
+    · rw [if_pos d1] at h; simp [readBE] at h
+    rw [if_neg d1] at h
+    by_cases d2 : b1 < 192
+    · rw [if_pos d2] at h; simp [readBE] at h
+    rw [if_neg d2] at h
+    by_cases d3 : b1 = 192
+    · rw [if_pos d3] at h; simp [readBE] at h
+    rw [if_neg d3] at h
+    by_cases d4 : b1 = 194
+    · rw [if_pos d4] at h; simp [readBE] at h
+    rw [if_neg d4] at h
+    by_cases d5 : b1 = 195
+    · rw [if_pos d5] at h; simp [readBE] at h
+    rw [if_neg d5] at h
+    by_cases d6 : b1 = 196
+    · rw [if_pos d6] at h; simp [readBE] at h
+    rw [if_neg d6] at h
+    by_cases d7 : b1 = 197
+    · rw [if_pos d7] at h; simp [readBE] at h
+    rw [if_neg d7] at h
+    by_cases d8 : b1 = 198
+    · rw [if_pos d8] at h; simp [readBE] at h
+    rw [if_neg d8] at h
+    by_cases d9 : b1 = 205
+    · rw [if_pos d9] at h; simp [readBE] at h
+    rw [if_neg d9] at h
+    by_cases d10 : b1 = 206
+    · rw [if_pos d10] at h; simp [readBE] at h
+    rw [if_neg d10] at h
+    by_cases d11 : b1 = 207
+    · rw [if_pos d11] at h; simp [readBE] at h
+    rw [if_neg d11] at h
+    by_cases d12 : b1 = 209
+    · rw [if_pos d12] at h; simp [readBE] at h
+    rw [if_neg d12] at h
+    by_cases d13 : b1 = 210
+    · rw [if_pos d13] at h; simp [readBE] at h
+    rw [if_neg d13] at h
+    by_cases d14 : b1 = 211
+    · rw [if_pos d14] at h; simp [readBE] at h
+    rw [if_neg d14] at h
+    by_cases d15 : b1 = 217
+    · rw [if_pos d15] at h; simp [readBE] at h
+    rw [if_neg d15] at h
+    by_cases d16 : b1 = 218
+    · rw [if_pos d16] at h; simp [readBE] at h
+    rw [if_neg d16] at h
+    by_cases d17 : b1 = 219
+    · rw [if_pos d17] at h; simp [readBE] at h
+    rw [if_neg d17] at h
+    by_cases d18 : b1 = 220
+    · rw [if_pos d18] at h; simp [readBE] at h
+    rw [if_neg d18] at h
+    by_cases d19 : b1 = 221
+    · rw [if_pos d19] at h; simp [readBE] at h
+    rw [if_neg d19] at h
+    by_cases d20 : b1 = 222
+    · rw [if_pos d20] at h; simp [readBE] at h
+    rw [if_neg d20] at h
+    by_cases d21 : b1 = 223
+    · rw [if_pos d21] at h; simp [readBE] at h
+    rw [if_neg d21] at h
+    by_cases d22 : 224 ≤ b1 ∧ b1 < 256
+    · rw [if_pos d22] at h; simp [readBE] at h
+    rw [if_neg d22] at h
+    cases h
+  · rfl
+
+open SafeNet.Gen.Wire in
+theorem tryDeserialize_window (b0 b1 b2 : Nat) :
+    headerTryDeserialize [b0, b1, b2] = headerFromWindow [b0, b1, b2] := by
+  unfold headerTryDeserialize
+  split
+  · rename_i heq; simp only [List.cons.injEq, and_true] at heq
+    obtain ⟨rfl, rfl⟩ := heq
+    simp only [headerFromWindow, ↓reduceIte]
+    exact elem_two b1 b2
+  · rename_i heq; simp only [List.cons.injEq, and_true] at heq
+    obtain ⟨rfl, rfl, rfl, rfl⟩ := heq
+    simp [headerFromWindow, decodeHead]
+  · rename_i heq; simp at heq
+  · rename_i heq; simp only [List.cons.injEq, and_true] at heq
+    obtain ⟨rfl, rfl, rfl, rfl⟩ := heq
+    simp [headerFromWindow]
+  · rename_i heq; simp at heq
+  · rename_i heq; simp at heq
+  · rename_i heq; simp only [List.cons.injEq, and_true] at heq
+    obtain ⟨rfl, rfl, rfl⟩ := heq
+    simp [headerFromWindow]
+  · rename_i bs x5 x4 x3 x2 x1 x0 heq
+    have h91 : b0 ≠ 145 := fun e => x5 [b1, b2] (by simp [e])
+    have hc4 : ¬ (b0 = 196 ∧ b1 = 1) := fun ⟨e1, e2⟩ => x2 b2 [] (by simp [e1, e2])
+    have h81 : ¬ (b0 = 129 ∧ b1 = 0) := fun ⟨e1, e2⟩ => heq b2 (by simp [e1, e2])
+    simp only [headerFromWindow]
+    rw [if_neg h91]
+    by_cases c1 : b0 = 196
+    · have : b1 ≠ 1 := fun e => hc4 ⟨c1, e⟩
+      simp [c1, this]
+    · rw [if_neg c1]
+      by_cases c2 : b0 = 129
+      · have : b1 ≠ 0 := fun e => h81 ⟨c2, e⟩
+        simp [c2, this]
+      · simp [c2]
+
 end SafeNet.Wire
